@@ -171,6 +171,11 @@ pub struct Model {
     /// number of live op tasks that still own a handle clone
     /// packet identifiers of the PUBREL packets the implementation wrote since the last comparison
     pub observed_pubrels: Vec<u16>,
+    /// live QoS 2 publishes whose successful PUBREC was processed since the last comparison
+    pub recok_window: Vec<usize>,
+    /// a transient read error is armed and has not been seen by the client yet (`Sys::sync` decides
+    /// what it meant once it has been consumed)
+    pub transient_pending: bool,
     /// run() returned since the last comparison (observed)
     pub observed_run_return: bool,
     pub live_handles: usize,
@@ -237,6 +242,8 @@ impl Model {
             wake: BTreeSet::new(),
             by_pid: std::collections::HashMap::new(),
             observed_pubrels: vec![],
+            recok_window: vec![],
+            transient_pending: false,
             observed_run_return: false,
             live_handles: 0,
             worker_exists: false,
@@ -692,15 +699,14 @@ impl Model {
     /// a live QoS 2 publish whose PUBREC (< 0x80) has been processed while its PUBREL is still to come
     /// according to the future-driven sequence (the future not polled yet, or its request still queued)
     fn early_pubrel_op(&self, pid: u16) -> Option<usize> {
-        if self.ctx != CtxSt::Running {
-            return None;
-        }
         (0..self.ops.len()).find(|&i| {
             let o = &self.ops[i];
             o.pid == Some(pid)
-                && o.alive
                 && matches!(&o.spec, OpSpec::Publish(p) if p.qos() == 2)
-                && matches!(o.st, St::RecOk | St::RelQueued)
+                && ((o.alive && matches!(o.st, St::RecOk | St::RelQueued) && self.ctx == CtxSt::Running)
+                    // ... or the context has ended in the meantime (a server DISCONNECT behind the
+                    // PUBREC in the same batch, say) and the future has already been told so
+                    || (self.recok_window.contains(&i) && !matches!(o.st, St::AwaitComp)))
         })
     }
 
@@ -963,6 +969,7 @@ impl Model {
                                 self.hit("pubrel-sent");
                             } else if self.ops[op].alive {
                                 self.ops[op].st = St::RecOk;
+                                self.recok_window.push(op);
                                 self.wake.insert(op);
                                 self.hit("pubrec-ok");
                             } else if self.tolerate_abandoned_q2 {
@@ -1485,8 +1492,11 @@ impl Model {
                             }
                             wire_dead = true;
                         }
-                        self.ops[op].st = St::AwaitComp;
-                        self.sent_log.push((op, true));
+                        if matches!(self.ops[op].st, St::RecOk | St::RelQueued) {
+                            self.ops[op].st = St::AwaitComp;
+                            self.sent_log.push((op, true));
+                        }
+                        self.recok_window.retain(|x| *x != op);
                         self.hit("pubrel-sent");
                     } else {
                         if self.check_wire {
@@ -1649,6 +1659,7 @@ impl Model {
         for pid in want_rels {
             wires.push_back(WirePat::Pubrel { pid });
         }
+        self.recok_window.clear();
         // anything still expected is missing (a stall, since the system is quiescent)
         if !wire_dead && self.check_wire {
             while !self.check_client_acks && matches!(wires.front(), Some(WirePat::Ack { .. })) {
